@@ -5,6 +5,11 @@ V = os.path.dirname(os.path.dirname(os.path.abspath(__file__)))
 props = [json.loads(l) for l in open(os.path.join(V, "properties.jsonl"))]
 
 CLAIMS = {
+ "C15": dict(
+   text="Lean 4 theorems over the model of scripting::expand_args: C15_pos_ref (in pre$Npost the reference is replaced by the N-th argument and the adjacent text is preserved, for every argument list, every pre/post free of `$` and newlines), C15_index / C15_missing_is_empty / C15_all (what the value is: the N-th argument, nothing past the end, the arguments from the first on joined by blanks), C15_sq_untouched. The model is tied to /repo by in-process streams on expand_args_for_single_token / expand_args over words of 1..5 literal / $n / ${n} / $@ segments (vs the Lean spec specArgs) under argument lists with blanks, quotes, `$1`, empty strings. Functions (both header spellings, names with - and _), source chains of depth 3 (variables, functions persist), `exit N`, `set -e`, and the status of scripts, sourced files and function calls are exercised on the real binary against the documented outcome; the function-status defect found there was repaired by a fix: commit.",
+   note="Trusted: Lean kernel; hand-written model of positional expansion; functions, source, exit, set -e and statuses are checked by process-level scenarios only (not modelled in Lean): for those the assurance is that of a regression suite over generated scenarios, stated here rather than claimed as proof.",
+   technique="Lean 4 proof (list lemmas over the reference scanner) + model/implementation correspondence + process-level scenarios",
+   design="DESIGN.md §6 C15"),
  "C14": dict(
    text="Lean models of the script grammar (grammar.pest read as a character-level PEG with pest's implicit whitespace, producing pest's pair tree) and of the interpreter (run_exp, run_exp_if, run_exp_test_br, run_exp_for, run_exp_while over that tree), plus a textbook structured semantics semBlock over ASTs. Theorems: a stray block terminator makes the whole script a syntax error whatever follows (C14_stray_fi/done/else; the snapshot's silent skip is refuted and was repaired by a fix: commit adding EOI), exactly the first true arm of an if runs and later conditions are not evaluated, a failing arm is skipped, break ends the innermost loop only. The interpreter refinement run_lines(render b) = semBlock b is evaluated by the compiled Lean definitions on every generated AST and compared with the implementation, but is not yet a theorem. Tied to /repo by: pest parse trees of 12 000 generated/mutated/keyword-soup scripts vs the PEG model (identical on all), 3 000 random ASTs executed in-process under a scripted run_proc with programmed status sequences and watched loop variables, and 150 through the real binary with marker-writing helpers.",
    note="Trusted: Lean kernel; hand-written PEG and interpreter models (validated by correspondence on generated scripts only); the refinement between interpreter model and structured semantics and the PEG round trip are runtime-checked instances, not theorems; run_command_line on each line is a parameter (C03).",
